@@ -1,7 +1,7 @@
 /-
   Schema names and row names, operation by operation, as regenerated from the current source text (GenC15.lean: the
   comprehension that builds the new SCHEMA and the comprehension that builds every new ROW in
-  `DataFrameInternal.withColumnRenamed`, `toDF`, `drop` and `union`): on a frame whose rows carry the schema's names and
+  `DataFrameInternal.withColumnRenamed`, `toDF`, `drop` and `union`, and the projection `withColumn` builds): on a frame whose rows carry the schema's names and
   as many values, the two comprehensions yield the same names — C15's invariant, preserved by the text of each
   operation — and for `withColumnRenamed` / `union` they are the names of the frame model (Model/Frame.lean `opNames`).
 -/
@@ -63,5 +63,47 @@ theorem union_names_agree (schema : Names) (values : List Unit) (h : schema.leng
     unionOtherRowNames schema values = schema := by
   unfold unionOtherRowNames
   exact zip_map_fst schema values h
+
+-- OBLIGATION: PysparklingVerif.Extracted.C15.withColumn_selection_is_model
+/-- `withColumn` on an existing name, as the current text builds it: the projection has one element per field of the frame -
+the new column where the field carries the name, the field AT ITS POSITION otherwise - and evaluating it on a row of the
+frame's width (`FieldAsExpression.eval` with a position is `row[position]`) gives exactly the row of the model
+(`Sql.withColumnM`: `(r.zip names).map fun (x, n) => if n == name then v else x`), whether or not the names are unique.
+A projection that referred to the untouched fields by the field alone (the unrepaired text) is not translatable: two columns
+may carry the same field. -/
+theorem withColumn_selection_is_model {α : Type} (colName : String) (names : Names) (r : List α) (v : α)
+    (h : r.length = names.length) :
+    (withColumnSelection colName names).map (ColRef.eval v r)
+      = ((r.zip names).map fun (x, n) => if n == colName then v else x).map some := by
+  apply List.ext_getElem?
+  intro j
+  unfold withColumnSelection
+  simp only [List.getElem?_map, List.getElem?_zipIdx, List.getElem?_zip_eq_some]
+  by_cases hj : j < names.length
+  · have hj' : j < r.length := by omega
+    simp [List.getElem?_eq_getElem hj, ColRef.eval]
+    have hz : (r.zip names)[j]? = some (r[j], names[j]) := by
+      rw [List.getElem?_zip_eq_some]; exact ⟨List.getElem?_eq_getElem hj', List.getElem?_eq_getElem hj⟩
+    by_cases hn : names[j] = colName
+    · simp [hn, ColRef.eval, hz]
+    · simp [hn, ColRef.eval, List.getElem?_eq_getElem hj', hz]
+  · have hj' : ¬ j < r.length := by omega
+    have hz : (r.zip names)[j]? = none := by
+      apply List.getElem?_eq_none; simp [List.length_zip]; omega
+    simp [List.getElem?_eq_none (Nat.le_of_not_lt hj), hz]
+
+-- OBLIGATION: PysparklingVerif.Extracted.C15.withColumn_replaces_iff
+/-- the test that selects the replacing branch is the model's `names.contains name` -/
+theorem withColumn_replaces_iff (colName : String) (names : Names) :
+    withColumnReplaces colName names = names.contains colName := by
+  unfold withColumnReplaces
+  induction names with
+  | nil => rfl
+  | cons n ns ih =>
+    rw [List.any_cons, ih, List.contains_cons]
+    by_cases hn : n = colName
+    · simp [hn]
+    · have hn' : ¬ colName = n := fun h => hn h.symm
+      simp [hn, hn']
 
 end PysparklingVerif.Extracted.C15
